@@ -10,7 +10,7 @@ MODULES = ["Helios.Props.C04"]
 THEOREMS = ["Helios.LB.passive_below_threshold", "Helios.LB.passive_at_threshold", "Helios.LB.finish_no_eject",
             "Helios.LB.probe_fail_ejects", "Helios.LB.probe_ok_never_ejects", "Helios.LB.no_traffic_in_window",
             "Helios.LB.recovers_after_window", "Helios.LB.lazy_expiry", "Helios.LB.eject_mirror",
-            "Helios.LB.isHealthyAt_mirror"]
+            "Helios.LB.isHealthyAt_mirror", "Helios.LB.probeEnd_ok_keeps_window"]
 SEC = lbgen.SEC
 
 
@@ -27,10 +27,23 @@ def gen_episode(rng, long=False):
             g.request(outcome=rng.choice(["200", "404", "204"]))
         elif k < 0.7:
             g.request(outcome=rng.choice(["500", "503", "unreach", "502", "abort"]))
-        elif k < 0.8:
+        elif k < 0.78:
             g.probe(ok=True)
-        elif k < 0.9:
+        elif k < 0.86:
             g.probe(ok=False)
+        elif k < 0.93 and g.names:
+            # a probe in flight while requests fail / the backend is ejected / time passes
+            name = rng.choice(g.names)
+            g.probe_begin(name)
+            for _ in range(rng.randint(0, 4)):
+                kk = rng.random()
+                if kk < 0.6:
+                    g.request(outcome=rng.choice(["500", "503", "unreach", "abort", "200"]))
+                elif kk < 0.8:
+                    g.eject(name=name, dur=rng.choice([ej * SEC, 1, 10**6]))
+                else:
+                    g.advance(rng.choice([0, 1, ej * SEC, ej * SEC + 1]))
+            g.probe_end(name, ok=rng.random() < 0.75)
         else:
             g.begin()
         if rng.random() < 0.5:
@@ -73,7 +86,7 @@ def oracle(ep, outs):
             if recovery:
                 if info.get("served"):
                     served_in_recovery.add(info["served"])
-                elif info.get("status") == 503:
+                elif info.get("status") == 503 and sh.pool:
                     fails.append("503 after every unhealthy window has elapsed (%s)" % line)
         if w[1] in ("list", "metrics"):
             now = sh_now[0]
@@ -94,7 +107,7 @@ def oracle(ep, outs):
                         x = sh.by_name(unquote(f[0]))
                         if x is not None and sh.in_window(x, now) and f[5] == "true":
                             fails.append("metrics report %s healthy inside its unhealthy window" % f[0])
-        if w[1] in ("begin", "end", "eject", "probe"):
+        if w[1] in ("begin", "end", "eject", "probe", "probe-begin", "probe-end"):
             sh_now[0] = int(w[3])
     if recovery and not fails and sh.strategy in ("round_robin", "weighted_round_robin"):
         missing = [x.name for x in sh.pool if x.name not in served_in_recovery]
@@ -108,8 +121,8 @@ sh_now = [0]
 
 def check(ctx):
     ctx.assumptions += [
-        "sequential histories under the virtual clock; active probes are single synchronous checkBackendHealth calls with a scripted health endpoint",
-        "schedules of an expiry check racing a fresh ejection / a probe racing a passive ejection are not enumerated here (repaired by fix commits 680fd56 and 60c1b50; race detector runs in C12)",
+        "histories under the virtual clock; active probes are real checkBackendHealth calls against a scripted health endpoint, either synchronous or held in flight while requests fail, the backend is ejected and time passes (probe-begin / probe-end)",
+        "the schedule of an expiry check racing a fresh ejection inside one critical section is not enumerated here (repaired by fix commit 60c1b50; lockset theorem + race detector in C12)",
     ]
     ok = C.prove(ctx, MODULES, THEOREMS)
     binary = c02.build(ctx)
